@@ -58,7 +58,18 @@ C05Labels(c) ==
   \cup (IF \E i \in DOMAIN S(c) : StNode(CurAfter(c, i - 1)) \in Bps(c) THEN {"missed-breakpoint"} ELSE {})
   \cup (IF c.out.stopped = "Done" /\ ~c.nilbs /\ ~c.out.finalq /\ NodeOK(c, Final(c)) /\ ~MayRest(c.spec, Final(c), Perm(c)) THEN {"done-but-not-quiescent"} ELSE {})
   \cup (IF c.out.stopped = "Done" /\ Rest(c) # <<>> /\ CanConsume(c.spec, Final(c)) THEN {"discarded-at-consuming-node"} ELSE {})
-  \cup (IF c.out.stopped \notin {"Done", "Limited", "BreakpointReached"} THEN {"unknown-stop-reason"} ELSE {})
+  \cup (IF c.out.stopped \notin {"Done", "Limited", "BreakpointReached", "InternalError"} THEN {"unknown-stop-reason"} ELSE {})
+  \* InternalError is truthful only for a step that failed at the spec's error node (there is no other node to go to):
+  \* the last stride starts there and went nowhere, the error is recorded, what was not processed is handed back
+  \cup (IF c.out.stopped = "InternalError" /\
+           ~(/\ S(c) # <<>>
+             /\ StNode(NormSt(S(c)[Len(S(c))].from)) = ErrNode(c.spec)
+             /\ S(c)[Len(S(c))].to = NONE
+             /\ c.out.werr # ""
+             /\ c.out.remaining = Rest(c)
+             /\ (c.nilbs \/ S(c)[Len(S(c))].q \/ ~NodeOK(c, NormSt(S(c)[Len(S(c))].from))
+                 \/ MayFail(c.spec, NormSt(S(c)[Len(S(c))].from), PendingAt(c, Len(S(c))), Perm(c))))
+        THEN {"false-internal-error"} ELSE {})
   \cup
   \* split equivalence: claimed when neither limit nor breakpoint intervened and the walk is deterministic
   (LET det == ~c.nilbs /\ AllJudgeable(c) /\ (\A i \in DOMAIN S(c) : ~S(c)[i].q) /\ DetSpec(c.spec)
@@ -68,8 +79,16 @@ C05Labels(c) ==
                                   \/ c.splits[i].emitted # c.splits[j].emitted
       THEN {"split-changes-result"} ELSE {})
 
+\* a step that can only fail, taken at the spec's error node: the walk has to stop there and say so (InternalError, the
+\* error in Walked.Error) - the failure may not be dropped
+DroppedAt(c, i) ==
+  /\ ~c.nilbs /\ ~S(c)[i].q /\ NodeOK(c, NormSt(S(c)[i].from))
+  /\ StNode(NormSt(S(c)[i].from)) = ErrNode(c.spec)
+  /\ MustFail(c.spec, NormSt(S(c)[i].from), PendingAt(c, i), Perm(c))
+  /\ ~(i = Len(S(c)) /\ c.out.stopped = "InternalError" /\ c.out.werr # "")
 C07Labels(c) ==
   (IF c.out.outcome = "panicked" THEN {"crash"} ELSE {})
+  \cup (IF Returned(c) /\ \E i \in DOMAIN S(c) : DroppedAt(c, i) THEN {"failure-at-the-error-node-dropped"} ELSE {})
   \cup (IF c.out.outcome = "hung" THEN {"hang"} ELSE {})
   \cup (IF c.out.outcome = "returned" /\ ~c.out.walked THEN {"no-result"} ELSE {})
   \cup (IF c.repeat.outcome # "returned" THEN {"crash-on-repeat"} ELSE {})
